@@ -345,6 +345,10 @@ def check_names_after_op(w, ev_start, present_before, opdesc):
             w.viol("C18", "block-overwritten", "after=%s" % after, name,
                    "generated name %s now binds a different block than before op %s" % (name, opdesc),
                    {"after_restart": w.after_restart})
+    # a name bound in two places counts only if the generator handed it out in this
+    # incarnation (a reload of a hierarchy that edits + stages left inconsistent can
+    # duplicate blocks by itself; that is neither C18's nor -- after edits -- C15's claim)
+    dups = [d for d in dups if d in w.issued]
     if dups:
         w.viol("C18", "name-bound-twice", "after=%s" % after, dups[0],
                "names bound in two places of the hierarchy: %s" % dups[:4], {"after_restart": w.after_restart})
@@ -370,10 +374,25 @@ def do_stage(w):
     return None
 
 
+def _heads(G):
+    tg = set(t for b in G.graph.values() for t in b._jump_targets)
+    return sum(1 for n in G.graph if n not in tg)
+
+
 def do_edit(w, op):
     G = graph_at(w.g, op["where"])
     if G is None:
         return "skip"
+    h0 = _heads(G)
+    out = _do_edit(w, op, G)
+    if _heads(G) > max(h0, 1):
+        # the edit left a block nothing points at (e.g. tails without an arc into
+        # the exits): legal, but the graph can no longer be walked from one head
+        w.path_ok = False
+    return out
+
+
+def _do_edit(w, op, G):
     kind = op["kind"]
     pre = models.snap_graph(G)
     if kind == "join_returns":
